@@ -46,7 +46,7 @@ ASSUMPTIONS = [
 EXHAUSTIVE = {"quick": False, "thorough": False}
 FINDING_CLASSES = {1: "save-skip-none-null-over-default", 2: "skip-default-trims-dict-leaf",
                    3: "skip-default-eq-conflates-types", 4: "json-nonfinite-float", 5: "unprintable-str",
-                   6: "comments-reemit", 7: "enum-member-null"}
+                   6: "comments-reemit", 7: "enum-member-null", 8: "default-not-normalised"}
 
 # ---------------------------------------------------------------------------------------------------------------------
 # generators
@@ -398,6 +398,7 @@ def sweep_cases(rng, tier):
     cases.append(make_case(rng, [("s", "str", None, "a\x85b")], {"kind": "dump", "format": "yaml", "skip_none": False}))
     cases.append({"decl": [["s", {"ty": "str", "def": "a"}]], "argv": ["--s=NO"],
                   "variant": {"kind": "print_config", "format": "yaml", "flags": "comments"}})
+    cases.append(make_case(rng, [("k", ["union", ["float", "int"]], -143624, ABSENT)], {"kind": "dump", "format": "yaml", "skip_none": False}))
     cases.append(make_case(rng, [("e", ["opt", ["enum", "Sw"]], None, {"$e": ["Sw", "null"]})],
                            {"kind": "dump", "format": "yaml", "skip_none": False}))
     return cases
